@@ -420,3 +420,45 @@ case("c11-twin-enc-shift", "C11", PC, "        return G1Compressed(x.n + a_flag 
      "        return G1Compressed(POW_2_383 + (a_flag << 381) + x.n)", expect="silent")
 case("c11-twin-exponent-floor", "C11", PC, "    y = pow((x**3 + b.n) % q, (q + 1) // 4, q)", "    y = pow((x**3 + b.n) % q, (q + 3) // 4, q)", expect="silent")
 case("c11-twin-sqrt-arg-assoc", "C11", PC, "    y = modular_squareroot_in_FQ2(x**3 + b2)", "    y = modular_squareroot_in_FQ2(b2 + x * x * x)", expect="silent")
+
+# ---------------------------------------------------------------- C10
+SWU = "py_ecc/optimized_bls12_381/optimized_swu.py"
+H2C = "py_ecc/bls/hash_to_curve.py"
+BCONS = "py_ecc/optimized_bls12_381/constants.py"
+case("c10-g2-exceptional-den", "C10", SWU, "    if denominator == FQ2.zero():\n        denominator = ISO_3_Z * ISO_3_A", "    if denominator == FQ2.zero():\n        denominator = ISO_3_A", rule="C10.R2")
+case("c10-g1-exceptional-dropped", "C10", SWU, "    if denominator == FQ.zero():\n        denominator = ISO_11_Z * ISO_11_A\n", "", rule="C10.R2")
+case("c10-g2-sign-after-scaling", "C10", SWU,
+     "    if t.sgn0 != y.sgn0:\n        y = -y\n\n    y = y * denominator\n\n    return (numerator, y, denominator)",
+     "    y = y * denominator\n\n    if t.sgn0 != y.sgn0:\n        y = -y\n\n    return (numerator, y, denominator)", rule="C10.R3")
+case("c10-g1-sign-inverted", "C10", SWU, "    if t.sgn0 != y.sgn0:\n        y = -y\n\n    y = y * denominator\n\n    return numerator, y, denominator",
+     "    if t.sgn0 == y.sgn0:\n        y = -y\n\n    y = y * denominator\n\n    return numerator, y, denominator", rule="C10.R3")
+case("c10-g2-eta-first-only", "C10", SWU, "    for eta in etas:\n", "    for eta in etas[:3]:\n", rule="C10.R2")
+case("c10-g2-roots-short", "C10", SWU, "    for root in roots:\n", "    for root in roots[1:]:\n", rule="C10.R2")
+case("c10-g2-x2-not-updated", "C10", SWU, "    if not success:\n        numerator = numerator * iso_3_z_t2\n", "", rule="C10.R2")
+case("c10-g1-x2-wrong", "C10", SWU, "        numerator = numerator * iso_11_z_t2\n", "        numerator = numerator * t2\n", rule="C10.R2")
+case("c10-g1-sqrt-const", "C10", SWU, "        y = y * t**3 * SQRT_MINUS_11_CUBED", "        y = y * t**3 * ISO_11_Z", rule="C10.R2")
+case("c10-g2-u-formula", "C10", SWU, "    u = (numerator**3) + (ISO_3_A * numerator * (denominator**2)) + (ISO_3_B * v)",
+     "    u = (numerator**3) + (ISO_3_A * numerator * denominator) + (ISO_3_B * v)", rule="C10.R2")
+case("c10-g1-sqrt-exponent", "C10", BCONS, "P_MINUS_3_DIV_4 = (FQ.field_modulus - 3) // 4", "P_MINUS_3_DIV_4 = (FQ.field_modulus - 3) // 2")
+case("c10-g2-sqrt-v-power", "C10", SWU, "    temp1 = u * v**7\n    temp2 = temp1 * v**8", "    temp1 = u * v**7\n    temp2 = temp1 * v**6", rule="C10.R2")
+case("c10-g2-valid-root-first-wins-broken", "C10", SWU, "        if temp2 == FQ2.zero() and not is_valid_root:\n            is_valid_root = True\n            result = sqrt_candidate",
+     "        if temp2 == FQ2.zero() and not is_valid_root:\n            is_valid_root = True\n            result = gamma", rule="C10.R2")
+case("c10-iso3-coefficient", "C10", BCONS, "ISO_3_K_2_2 = FQ2.one()", "ISO_3_K_2_2 = FQ2([1, 1])", rule="C10.R4")
+case("c10-iso11-ydenominator-z", "C10", SWU,
+     "    mapped_values[2] = mapped_values[2] * y  # y-numerator * y\n    mapped_values[3] = mapped_values[3] * z  # y-denominator * z\n\n    z_G1",
+     "    mapped_values[2] = mapped_values[2] * y  # y-numerator * y\n\n    z_G1", rule="C10.R4")
+case("c10-iso3-horner-order", "C10", SWU, "        for j, k_i_j in enumerate(reversed(k_i[:-1])):\n            mapped_values[i] = mapped_values[i] * x + z_powers[j] * k_i_j\n\n    mapped_values[2] = mapped_values[2] * y  # y-numerator * y\n    mapped_values[3] = mapped_values[3] * z  # y-denominator * z\n\n    z_G2",
+     "        for j, k_i_j in enumerate(k_i[:-1]):\n            mapped_values[i] = mapped_values[i] * x + z_powers[j] * k_i_j\n\n    mapped_values[2] = mapped_values[2] * y  # y-numerator * y\n    mapped_values[3] = mapped_values[3] * z  # y-denominator * z\n\n    z_G2", rule="C10.R4")
+case("c10-pipeline-no-clear", "C10", H2C, "    r = add(q0, q1)\n    p = clear_cofactor_G2(r)\n    return p", "    r = add(q0, q1)\n    return r", rule="C10.R1")
+case("c10-pipeline-same-u", "C10", H2C, "    q0 = map_to_curve_G1(u0)\n    q1 = map_to_curve_G1(u1)", "    q0 = map_to_curve_G1(u0)\n    q1 = map_to_curve_G1(u0)", rule="C10.R1")
+case("c10-z-constant", "C10", BCONS, "ISO_3_Z = FQ2([-2, -1])", "ISO_3_Z = FQ2([-2, 1])")
+# silent twins
+case("c10-twin-g2-loop-break", "C10", SWU,
+     "        if temp2 == FQ2.zero() and not is_valid_root:\n            is_valid_root = True\n            result = sqrt_candidate",
+     "        if not is_valid_root and temp2 == FQ2.zero():\n            is_valid_root = True\n            result = sqrt_candidate", expect="silent")
+case("c10-twin-g1-reassoc", "C10", SWU, "    u = (numerator**3) + (ISO_11_A * numerator * (denominator**2)) + (ISO_11_B * v)",
+     "    u = ISO_11_B * v + numerator * (numerator**2 + ISO_11_A * denominator * denominator)", expect="silent")
+case("c10-twin-g2-sign-form", "C10", SWU, "    if t.sgn0 != y.sgn0:\n        y = -y\n\n    y = y * denominator\n\n    return (numerator, y, denominator)",
+     "    if not (t.sgn0 == y.sgn0):\n        y = y * -1\n\n    y = denominator * y\n\n    return (numerator, y, denominator)", expect="silent")
+case("c10-twin-iso-temp", "C10", SWU, "    z_G2 = mapped_values[1] * mapped_values[3]  # x-denominator * y-denominator",
+     "    xd, ydz = mapped_values[1], mapped_values[3]\n    z_G2 = ydz * xd", expect="silent")
